@@ -1,4 +1,5 @@
 import I18n.Model.Charset
+import I18n.Model.CharsetCns
 import I18n.Driver.Util
 /-!
 Driver for the charset model (`charset <op> <args…>`).  Names and texts travel as `.`-separated hex code points (`-` = empty),
@@ -16,6 +17,8 @@ byte strings as plain hex (`-` = empty), "no value" as `~`.
 * `check <name> <is_template> <dec> <codec | ~> <characters | ~ (no language) | ^ (no list)> <oracle>` →
   tags and the encoding kept; `<oracle>` = `;`-separated `<enc name>=<joined outcome>:<per-character outcomes>` (or `~`)
 * `loader <len> <raw decode outcome>` → `ok <text> | ude <start> <stop> | crash`
+* `euctw-rdec <bytes>` → `ok <text> rt=<0|1> | err <offset> <eilseq|einval>` and `euctw-renc <text>` → `ok <bytes> | err <index>`: the same over
+  the tables of the system iconv (`Generated.CharsetCns*`); `rt` = no redundant unit, i.e. encode(decode(b)) = b by `euctw_roundtrip`
 * `euctw-dec <bytes> <cns oracle>` → `ok <text> | err <offset> <eilseq|einval>`; `euctw-enc <text> <inverse oracle>` → `ok <bytes> | err <index>`
 -/
 namespace I18n.Driver.Charset
@@ -186,6 +189,16 @@ def handle (op : String) (args : List String) : String :=
       | _ => none
     let inv : CnsInverse := fun ch => (entries.find? (·.1 == ch)).map (·.2)
     match eucTwEncode inv (nameOf t) with
+    | .ok bs => s!"ok {showBytes bs}"
+    | .error i => s!"err {i}"
+  | "euctw-rdec", [b] =>
+    -- the tables of the system iconv (Generated.CharsetCns*): text + "does encode(decode(b)) = b hold" as the theorem predicts
+    let bs := bytesOf b
+    match eucTwDecodeReal bs with
+    | .ok cs => s!"ok {showName cs} rt={if eucTwNoRedundant cnsReal bs.length bs then 1 else 0}"
+    | .error (i, incomplete) => s!"err {i} {if incomplete then "einval" else "eilseq"}"
+  | "euctw-renc", [t] =>
+    match eucTwEncodeReal (nameOf t) with
     | .ok bs => s!"ok {showBytes bs}"
     | .error i => s!"err {i}"
   | _, _ => "bad-op"
